@@ -63,6 +63,13 @@ inductive Err where
   | featureFrameworkUnsupported -- Engine.set_compute_framework: "does not support compute framework"
   deriving DecidableEq, Repr
 
+instance instDecEqExcept {ε α : Type} [DecidableEq ε] [DecidableEq α] : DecidableEq (Except ε α) := fun a b =>
+  match a, b with
+  | .ok x, .ok y => if h : x = y then isTrue (by rw [h]) else isFalse (fun e => by injection e; contradiction)
+  | .error x, .error y => if h : x = y then isTrue (by rw [h]) else isFalse (fun e => by injection e; contradiction)
+  | .ok _, .error _ => isFalse (fun e => by cases e)
+  | .error _, .ok _ => isFalse (fun e => by cases e)
+
 /-! ## `issubclass` on feature groups (same MRO derivation as C18) -/
 
 def World.isSub (W : World) (c p : Cls) : Bool := (Links.mroAux W.parent c c).contains p
